@@ -1,6 +1,7 @@
 #!/bin/sh
 # usage: tools/seedtest.sh <mutant-id> <tier> <prop> [<prop>...]   -- verify a seeded change and run checks against it
-# The patch is applied to /repo, the checks run, and the patch is ALWAYS reverted afterwards.
+# Default: the patch is applied to /repo, the checks run, and the patch is ALWAYS reverted afterwards.
+# SEED_SCRATCH=1: the checks run against a scratch worktree instead (VERIF_REPO), for use while a background run reads /repo.
 ID="$1"; TIER="$2"; shift; shift
 SRC=/tmp/mut/${ID}_out
 [ -d /verif/seeded/$ID ] && SRC=/verif/seeded/$ID
@@ -11,6 +12,15 @@ echo "== demo on clean tree:"; /venv/bin/python $SRC/demo.py "$WT" >/tmp/mut/dem
 ( cd "$WT" && git apply $SRC/patch.diff ) || { echo "patch does not apply"; exit 3; }
 echo "== demo on changed tree:"; /venv/bin/python $SRC/demo.py "$WT" >/tmp/mut/demo_mut_$ID.txt 2>&1; echo "exit $?"; tail -2 /tmp/mut/demo_mut_$ID.txt
 echo "== test-suite on changed tree:"; ( cd "$WT" && /venv/bin/python -m pytest -q -p no:cacheprovider 2>&1 | tail -1 )
+if [ -n "$SEED_SCRATCH" ]; then
+  find "$WT" -name __pycache__ -prune -exec rm -rf {} + 2>/dev/null
+  for P in "$@"; do
+    echo "== check $P --$TIER on changed scratch tree:"
+    VERIF_REPO="$WT" timeout 3000 ./check $P --$TIER 2>&1 | grep -E "^VIOLATION|^  obligation|^UNDEC|^CHECKER|^C[0-9]+ (quick|thorough)" | head -${SEED_LINES:-8} | cut -c1-330
+  done
+  git -C /repo worktree remove --force "$WT"
+  exit 0
+fi
 git -C /repo worktree remove --force "$WT"
 git -C /repo apply $SRC/patch.diff || exit 3
 for P in "$@"; do
